@@ -128,10 +128,23 @@ def _job(args):
     return ctx
 
 
+_STATE = None      # shared per-item state (0 waiting, 1 running, 2 finished); inherited by the forked workers
+
+
+def _tracked(arg):
+    fn, i, item = arg
+    _STATE[i] = 1
+    r = fn(item)
+    _STATE[i] = 2
+    return r
+
+
 def _robust_map(fn, items: list, procs: int) -> list:
     """pool.map that survives a worker dying under it (a segfault or the OOM killer inside the code under test): multiprocessing.Pool
-    would then wait for the lost task for ever.  Unfinished items are re-run; items that were running when the pool broke are re-tried
-    one by one, and an item that kills its worker again yields None (the caller records the run as refused)."""
+    would then wait for the lost task for ever.  Each worker marks the item it is working on in shared memory; when the pool breaks, the
+    items that were running are re-tried one by one in a process of their own (an item that kills that process too yields None: the
+    caller records the run as refused) and the rest goes to a fresh pool."""
+    global _STATE
     import concurrent.futures as cf
     from concurrent.futures.process import BrokenProcessPool
     ctxm = mp.get_context('fork')
@@ -139,10 +152,10 @@ def _robust_map(fn, items: list, procs: int) -> list:
     done = set()
     pending = list(range(len(items)))
     while pending:
+        _STATE = ctxm.Array('b', len(items), lock=False)
         ex = cf.ProcessPoolExecutor(max_workers=max(1, min(procs, len(pending))), mp_context=ctxm)
-        futs = {ex.submit(fn, items[i]): i for i in pending}
+        futs = {ex.submit(_tracked, (fn, i, items[i])): i for i in pending}
         broke = False
-        suspects = []
         try:
             for f in cf.as_completed(futs):
                 i = futs[f]
@@ -153,23 +166,27 @@ def _robust_map(fn, items: list, procs: int) -> list:
                     broke = True
                     break
         finally:
-            if broke:
-                suspects = [i for f, i in futs.items() if i not in done and (f.running() or f.done())]
             ex.shutdown(wait=False, cancel_futures=True)
-        pending = [i for i in pending if i not in done]
         if broke:
-            for i in (suspects or pending[:1]):
-                if i in done:
-                    continue
+            for f, i in futs.items():       # results that arrived before the break
+                if i not in done and f.done() and not f.cancelled() and f.exception() is None:
+                    results[i] = f.result()
+                    done.add(i)
+            suspects = [i for i in pending if i not in done and _STATE[i] == 1]
+            for i in suspects:
                 one = cf.ProcessPoolExecutor(max_workers=1, mp_context=ctxm)
                 try:
-                    results[i] = one.submit(fn, items[i]).result()
+                    results[i] = one.submit(_tracked, (fn, i, items[i])).result()
                 except BrokenProcessPool:
                     results[i] = None
                 finally:
                     one.shutdown(wait=False, cancel_futures=True)
                 done.add(i)
-            pending = [i for i in pending if i not in done]
+            if not suspects:      # nothing was marked as running: make progress anyway
+                i = next(k for k in pending if k not in done)
+                results[i] = None
+                done.add(i)
+        pending = [i for i in pending if i not in done]
     return results
 
 
